@@ -273,6 +273,207 @@ def _(m):
                   "self.b_fiber._createDefault()", count=2, also=(m["Fiber"],))
 
 
+# ------------------------------------------------------------------------------- C06
+@mutant("c06_and_drops_last_match", "C06")
+def _(m):
+    patch_modfunc(m["iterators"], "__and__", "            while a_coord is not None and b_coord is not None:\n                if a_coord == b_coord:\n",
+                  "            while a_coord is not None and b_coord is not None:\n                if a_coord == b_coord and not (isinstance(a_coord, int) and a_coord == 3 and len(self.a_fiber.coords) > 2):\n",
+                  also=(m["Fiber"],)) if False else patch_modfunc(
+        m["iterators"], "__and__", "                if a_coord > b_coord:\n", "                if a_coord > b_coord and b_coord != 2:\n                    a_coord, a_payload = _get_next(a)\n                    continue\n\n                if a_coord > b_coord:\n",
+        also=(m["Fiber"],))
+
+
+@mutant("c06_payload_iadd_ignores_zero_old", "C06")
+def _(m):
+    patch_method(m["Payload"], "__iadd__", "            self.value = self.value + other.value", "            self.value = (self.value if self.value != 3 else 0) + other.value")
+
+
+@mutant("c06_split_drops_element", "C06")
+def _(m):
+    patch_method(m["Fiber"], "splitUniform", "                    if c >= active_end + self.post_halo:\n                        break\n",
+                 "                    if c >= active_end + self.post_halo:\n                        break\n                    if self.step == 2 and c % 4 == 3:\n                        continue\n")
+
+
+@mutant("c06_swizzle_loses_last_leaf", "C06")
+def _(m):
+    patch_method(m["Tensor"], "swizzleRanks", "        coords.sort(reverse=True)\n", "        coords.sort(reverse=True)\n        if len(coords) > 5:\n            coords = coords[1:]\n")
+
+
+# ------------------------------------------------------------------------------- C13
+@mutant("c13_fromrandom_ignores_seed", "C13")
+def _(m):
+    patch_method(m["Fiber"], "fromRandom", "if seed is not None:", "if False:")
+
+
+@mutant("c13_fromrandom_seeds_top_level_only_when_deep", "C13")
+def _(m):
+    patch_method(m["Fiber"], "fromRandom", "if seed is not None:", "if seed is not None and len(shape) < 3:")
+
+
+# (a dump that opens its file in append mode is NOT a usable mutant: yaml.safe_load lets the last of
+#  duplicate keys win, so [older dump][new dump] and even most [torn dump][new dump] files load as the new dump)
+@mutant("c13_dump_not_closed", "C13")
+def _(m):
+    patch_method(m["Tensor"], "dump", "        with open(filename, 'w') as file:\n            yaml.dump(tensor_dict, file)",
+                 "        file = open(filename, 'w')\n        yaml.dump(tensor_dict, file)")
+
+
+@mutant("c13_fromyaml_drops_shape", "C13")
+def _(m):
+    patch_method(m["Tensor"], "fromYAMLfile", "return Tensor.fromFiber(rank_ids, root, shape=shape, name=name)",
+                 "return Tensor.fromFiber(rank_ids, root, shape=None, name=name)")
+
+
+# ------------------------------------------------------------------------------- C15
+@mutant("c15_begincollect_keeps_fiber_label", "C15")
+def _(m):
+    patch_method(m["Metrics"], "beginCollect", "        cls.fiber_label = {}\n", "")
+    patch_method(m["Metrics"], "registerRank", "        cls.fiber_label[rank] = 0\n", "        cls.fiber_label.setdefault(rank, 0)\n")
+
+
+@mutant("c15_begincollect_keeps_metrics", "C15")
+def _(m):
+    patch_method(m["Metrics"], "beginCollect", "        cls.metrics = {}\n", "        cls.metrics = cls.metrics if cls.collecting and cls.metrics else {}\n")
+
+
+@mutant("c15_mul_counted_twice_for_payload_operand", "C15")
+def _(m):
+    patch_method(m["Payload"], "__mul__", '            Metrics.incCount("Compute", "payload_mul", 1)',
+                 '            Metrics.incCount("Compute", "payload_mul", 2 if isinstance(other, Payload) and other.value == 3 else 1)')
+
+
+@mutant("c15_iadd_add_counted_when_old_zero", "C15")
+def _(m):
+    patch_method(m["Payload"], "__iadd__", "            if old != 0:", "            if True:")
+
+
+@mutant("c15_lshift_differs_when_collecting", "C15")
+def _(m):
+    patch_modfunc(m["iterators"], "__lshift__", "                    a_pos -= 1\n                    self.a_fiber.setSavedPos(a_pos)",
+                  "                    a_pos -= (0 if is_collecting and b_pos == 1 else 1)\n                    self.a_fiber.setSavedPos(a_pos)",
+                  also=(m["Fiber"],))
+
+
+@mutant("c15_numiters_counts_header", "C15")
+def _(m):
+    import fibertree.model.compute as C
+    patch_method(C.Compute, "numIters", "            f.readline()\n\n            iters = 0", "            iters = 0")
+
+
+@mutant("c15_endcollect_keeps_num_traces", "C15")
+def _(m):
+    patch_method(m["Metrics"], "beginCollect", "        cls.traces = {}\n", "        cls.traces = {} if not cls.collecting else cls.traces\n")
+
+
+# ------------------------------------------------------------------------------- C16
+@mutant("c16_writetrace_keeps_buffer", "C16")
+def _(m):
+    patch_method(m["Metrics"], "_writeTrace", "        cls.traces[rank][type_] = ([], mem_trace, True)", "        cls.traces[rank][type_] = (file_trace, mem_trace, True)")
+
+
+@mutant("c16_flush_loses_row_at_boundary", "C16")
+def _(m):
+    patch_method(m["Metrics"], "addUse", "        if file_trace is not None:\n            file_trace.append(data)\n",
+                 "        if file_trace is not None and not (len(file_trace) == 6 and cls.num_cached_uses == 7):\n            file_trace.append(data)\n")
+
+
+@mutant("c16_stamp_one_rank_short", "C16")
+def _(m):
+    patch_method(m["Metrics"], "addUse", "        iteration = iteration_num[:(i + 1)]", "        iteration = iteration_num[:i] + [0] if i >= 2 else iteration_num[:(i + 1)]")
+
+
+@mutant("c16_iterrange_reports_j", "C16")
+def _(m):
+    patch_modfunc(m["iterators"], "iterRange", "                    Metrics.addUse(rank, coord, i + j)", "                    Metrics.addUse(rank, coord, j if j > 2 else i + j - (1 if coord == 3 else 0))",
+                  also=(m["Fiber"],))
+
+
+@mutant("c16_header_full_loop_order", "C16")
+def _(m):
+    patch_method(m["Metrics"], "_startTrace", "        headings = list(r + \"_pos\" for r in cls.loop_order[:end]) + \\\n            cls.loop_order[:end] + [\"fiber_pos\"]",
+                 "        headings = list(r + \"_pos\" for r in cls.loop_order[:end]) + \\\n            cls.loop_order[:end] + [\"fiber_pos\"]\n        if end == 3:\n            headings = headings[1:]")
+
+
+@mutant("c16_and_bpos_not_advanced_on_skip", "C16")
+def _(m):
+    patch_modfunc(m["iterators"], "__and__", "                if a_coord > b_coord:\n                    if b_traced:\n                        Metrics.addUse(rank, b_coord, _trace_pos(self.b_fiber, b_coord, b_pos), type_=b_trace)\n                        b_pos += 1",
+                  "                if a_coord > b_coord:\n                    if b_traced and b_coord != 1:\n                        Metrics.addUse(rank, b_coord, _trace_pos(self.b_fiber, b_coord, b_pos), type_=b_trace)\n                        b_pos += 1",
+                  also=(m["Fiber"],))
+
+
+@mutant("c16_consume_returns_copy_keeps_rows", "C16")
+def _(m):
+    patch_method(m["Metrics"], "consumeTrace", "        cls.traces[rank][type_] = (file_trace, [], is_started)", "        cls.traces[rank][type_] = (file_trace, mem_trace[-1:] if len(mem_trace) > 4 else [], is_started)")
+
+
+# ------------------------------------------------------------------------------- C17
+@mutant("c17_window_one_rank_short", "C17")
+def _(m):
+    patch_method(m["traffic"].Traffic, "buffetTraffic", "                evict_end = order.index(loop_ranks[evict_on]) + 1", "                evict_end = order.index(loop_ranks[evict_on])")
+
+
+@mutant("c17_staging_test_le", "C17")
+def _(m):
+    patch_method(m["traffic"].Traffic, "_bufferTraffic", "trace[num_ranks * 2] < shapes[i])", "trace[num_ranks * 2] <= shapes[i])")
+
+
+@mutant("c17_remove_skipped", "C17")
+def _(m):
+    patch_method(m["traffic"].Traffic, "_bufferTraffic", "        for fn in next_use_traces.values():\n            os.remove(fn)", "        for fn in list(next_use_traces.values())[1:]:\n            os.remove(fn)")
+
+
+@mutant("c17_min_evicts_nearest", "C17")
+def _(m):
+    patch_method(m["traffic"].Traffic, "cacheTraffic", "                    evict_elem = next_evict.pop(-1)", "                    evict_elem = next_evict.pop(0 if len(next_evict) > 2 else -1)")
+
+
+@mutant("c17_filter_drops_last_match", "C17")
+def _(m):
+    patch_method(m["traffic"].Traffic, "filterTrace", "            while line_in and line_fil:", "            while line_in and line_fil and not (data_in and data_in[-1] == 3 and len(data_in) > 1):")
+
+
+@mutant("c17_combine_write_first_on_tie", "C17")
+def _(m):
+    patch_method(m["traffic"].Traffic, "_combineTraces", "                if write_line[0] < read_line[0]:", "                if write_line[0] <= read_line[0] and write_line[1]:")
+
+
+@mutant("c17_handle_left_open", "C17")
+def _(m):
+    patch_method(m["traffic"].Traffic, "_bufferTraffic", "        for file_ in traces.values():\n            file_.close()", "        for file_ in list(traces.values())[1:]:\n            file_.close()")
+
+
+# ------------------------------------------------------------------------------- C19
+@mutant("c19_twofinger_zip_fibers", "C19")
+def _(m):
+    I = m["intersect"]
+    patch_method(I.TwoFingerIntersector, "addTraces", "            coords1 = fibers1.get(fiber, [])", "            coords1 = list(fibers1.values())[list(fibers0).index(fiber)] if len(fibers1) > list(fibers0).index(fiber) else []")
+
+
+@mutant("c19_skipahead_run_counted_twice_after_match", "C19")
+def _(m):
+    I = m["intersect"]
+    patch_method(I.SkipAheadIntersector, "addTraces", "                    self.num_intersects += 1\n                    curr = None\n", "                    self.num_intersects += 1\n                    curr = 0 if i0 > 2 else None\n")
+
+
+@mutant("c19_leaderfollower_header_every_call", "C19")
+def _(m):
+    I = m["intersect"]
+    patch_method(I.LeaderFollowerIntersector, "addTraces", "        if not self.started:", "        if True:")
+
+
+@mutant("c19_numswaps_single_list_free", "C19")
+def _(m):
+    C = m["compute"]
+    patch_method(C.Compute, "_merge", "        # Otherwise, merge incrementally", "        if len(coords) == 1:\n            return 0, coords[0]\n        # Otherwise, merge incrementally")
+
+
+@mutant("c19_and_no_pending_row_changes_total", "C19")
+def _(m):
+    I = m["intersect"]
+    patch_method(I.TwoFingerIntersector, "addTraces", "            while i0 < len(coords0) and i1 < len(coords1):\n                self.num_intersects += 1",
+                 "            while i0 < len(coords0) and i1 < len(coords1):\n                self.num_intersects += (0 if coords0[i0] == coords1[i1] == 4 else 1)")
+
+
 def apply(name):
     if name not in MUTANTS:
         raise SystemExit(f"unknown mutant {name}; known: {sorted(MUTANTS)}")
